@@ -177,6 +177,17 @@ func renderObsProcs(sc *Scenario, meta *c20Meta) {
 					q = fmt.Sprintf("ALTER TABLE %s SET LINE_BREAK TO LF;", t)
 				}
 				s = append(s, fmt.Sprintf("ECHO '@W %d';", i), q)
+			case "fail":
+				// (sessions driven like the interactive shell only) a data-changing statement that fails after it
+				// has taken the table: for the model a data-changing access that changes nothing
+				q := []string{
+					fmt.Sprintf("UPDATE %s SET n = 1 / 0;", t),
+					fmt.Sprintf("UPDATE %s SET nosuchcolumn = 1;", t),
+					fmt.Sprintf("DELETE FROM %s WHERE nosuchcolumn = 1;", t),
+					fmt.Sprintf("INSERT INTO %s VALUES (1, 2, 3);", t),
+					fmt.Sprintf("REPLACE INTO %s (id, n) USING (id) VALUES (1, 2, 3);", t),
+				}[op.Form%5]
+				s = append(s, fmt.Sprintf("ECHO '@W %d';", i), q)
 			case "inc":
 				tt := t
 				if op.Form == 1 {
@@ -191,6 +202,9 @@ func renderObsProcs(sc *Scenario, meta *c20Meta) {
 		}
 		s = append(s, "ECHO '@Z 0';")
 		sc.Procs[p].Program = strings.Join(s, "\n")
+		if sc.Procs[p].Shell {
+			sc.Procs[p].Statements = s
+		}
 	}
 	sc.Meta = map[string]string{"workload": mustJSON(meta)}
 }
@@ -235,6 +249,12 @@ func (c20) Gen(seed uint64, tier string) *Scenario {
 	}
 	for p := 0; p < nobs+nwr; p++ {
 		var ops []ObsOp
+		shell := false
+		if rsh := Sub(seed, fmt.Sprintf("c20-shell-%d", p)); p < nobs && !useLinks && rsh.Bool(0.3) {
+			// this observer is a session driven like the interactive shell: a statement that fails does not
+			// end it (nor the transaction)
+			shell = true
+		}
 		if p < nobs {
 			n := r.Range(3, 9)
 			linkTab := -1
@@ -249,6 +269,10 @@ func (c20) Gen(seed uint64, tier string) *Scenario {
 					} else {
 						ops = append(ops, ObsOp{Kind: "touch", Table: tb + 10, Form: rl.Pick(0, 1, 2, 3, 4, 5, 6, 7, 9, 10, 12, 13, 14, 15)})
 					}
+					continue
+				}
+				if shell && Sub(seed, fmt.Sprintf("c20-fail-%d-%d", p, i)).Bool(0.2) {
+					ops = append(ops, ObsOp{Kind: "fail", Table: tb, Form: r.Intn(5)})
 					continue
 				}
 				switch r.Intn(11) {
@@ -298,7 +322,7 @@ func (c20) Gen(seed uint64, tier string) *Scenario {
 		}
 		meta.Ops = append(meta.Ops, ops)
 		w := wtChoices[2+r.Intn(3)]
-		sc.Procs = append(sc.Procs, ProcSpec{CPU: 1, WaitTimeoutS: w.wt + float64(137*(p+1))*1e-9, RetryDelayNs: w.retry + int64(1009*(p+1)+2*p*p), Format: "CSV", Quiet: true})
+		sc.Procs = append(sc.Procs, ProcSpec{CPU: 1, WaitTimeoutS: w.wt + float64(137*(p+1))*1e-9, RetryDelayNs: w.retry + int64(1009*(p+1)+2*p*p), Format: "CSV", Quiet: true, Shell: shell})
 	}
 	renderObsProcs(sc, meta)
 	sc.Knobs = Knobs{RowStride: r.Pick(1, 4, 64), Pool: "lifo"}
@@ -402,7 +426,21 @@ func (c20) Eval(t *testing.T, c *Case, dec func(int) *Decider) *Outcome {
 		printed := map[int]string{}
 		reached := map[int]bool{}
 		finished := false
+		opErr := map[int]string{} // shell sessions: the statement of op i returned an error (the session goes on)
+		cur := -1
 		for _, s := range parseSectionsFlat(p) {
+			if s.marker == "ERR" || s.marker == "PARSEERR" {
+				if cur >= 0 {
+					opErr[cur] = "error"
+					for _, st := range p.Stamps {
+						if strings.Contains(st.Text, "@ERR") && (strings.Contains(st.Text, "timeout") || strings.Contains(st.Text, "deadline exceeded") || strings.Contains(st.Text, "lock")) {
+							opErr[cur] = "lock" // (coarse: any lock error of the session)
+						}
+					}
+				}
+				continue
+			}
+			cur = s.txn
 			reached[s.txn] = true
 			if s.marker == "Q" && len(s.body) > 0 {
 				ct, ok := canonTable(s.body)
@@ -433,7 +471,7 @@ func (c20) Eval(t *testing.T, c *Case, dec func(int) *Decider) *Outcome {
 				switch op.Kind {
 				case "commit", "rollback":
 					lastRead, held = map[int]string{}, map[int]bool{}
-				case "ins", "inc", "noop":
+				case "ins", "inc", "noop", "fail":
 					delete(lastRead, op.Table)
 					held[op.Table] = true
 				case "sel", "selfu":
@@ -492,6 +530,18 @@ func (c20) Eval(t *testing.T, c *Case, dec func(int) *Decider) *Outcome {
 			}
 			_, executed := printed[i]
 			last := !reached[i+1] && !finished // the process ended inside this op (error / timeout)
+			if e, bad := opErr[i]; bad && (op.Kind != "fail" || e == "lock") {
+				// a shell session goes on after a statement that failed for a reason the scenario did not plan
+				// (a lock wait that timed out): what the transaction holds from here on is not modelled
+				o.Stats.probe("shell-session-unplanned-error:judged-up-to-there")
+				break ops
+			}
+			if op.Kind == "fail" {
+				if _, bad := opErr[i]; !bad && !last {
+					o.viol(prop, "scenario", "scenario-error:failing-statement-succeeded", fmt.Sprintf("p%d op %d: a statement built to fail returned no error", pi, i))
+				}
+				o.Stats.probe("failed-statement-in-transaction")
+			}
 			switch op.Kind {
 			case "commit", "rollback":
 				if last {
@@ -500,7 +550,7 @@ func (c20) Eval(t *testing.T, c *Case, dec func(int) *Decider) *Outcome {
 				for _, ts := range st {
 					ts.mode, ts.changes = "", nil
 				}
-			case "sel", "touch", "selfu", "ins", "inc", "noop":
+			case "sel", "touch", "selfu", "ins", "inc", "noop", "fail":
 				ts := get(op.Table)
 				write := op.Kind != "sel" && op.Kind != "touch"
 				if ts.mode == "" || (ts.mode == "ro" && write) {
@@ -533,7 +583,7 @@ func (c20) Eval(t *testing.T, c *Case, dec func(int) *Decider) *Outcome {
 				} else if ts.mode == "ro" {
 					o.Stats.probe("repeated-read-from-cache")
 				}
-				if op.Kind == "touch" || op.Kind == "noop" {
+				if op.Kind == "touch" || op.Kind == "noop" || op.Kind == "fail" {
 					if last {
 						break ops
 					}
